@@ -600,6 +600,7 @@ func runC15(r *Run, stratum string) *Violation {
 	if s.realRunCluster {
 		// the source shard runCluster asks for its role (INFO replication) before every campaign round: a master
 		src := simredis.NewServer(shardMaster)
+		src.Immediate = true
 		simredis.NewSource(src, "c15c15c15c15c15c15c15c15c15c15c15c15c15c1")
 		r.Net.Listen(shardMaster, src)
 		s.src = src
